@@ -1,6 +1,6 @@
 From Coq Require Extraction.
 From Coq Require Import ExtrOcamlBasic.
 From Tickit Require Import LifeDefs LifeSpec LifeProofs LifePenDefs LifeSpecEv.
-Extraction "mC08.ml" run_script heap_empty chain_list queue_list fixed pinned heap0
+Extraction "mC08.ml" run_script heap_empty chain_list queue_list fixed pinned fixedh heap0
   get_span_text get_span_call mock_display_text mock_trigger o_run
   wf_client gcheck all_dropped oracle_W oracle_O oracle_T client_okb event_free_op rb_run wf_trace.
